@@ -82,6 +82,10 @@ type GhostVar struct {
 	Name string
 	Type *TypeX
 	Pkg  *packages.Package
+	// State: a ghost map that abstracts real state living outside the verifier's heap (contract storage):
+	// unlike ordinary ghost variables it is forgotten by every uncontracted callee (it behaves like heap),
+	// and frame obligations about it range over ALL keys
+	State bool
 }
 
 type ConstDef struct {
@@ -374,13 +378,13 @@ func (db *ContractDB) loadFile(pkg *packages.Package, f *ast.File, fname string)
 			}
 		case "ghost":
 			// ghost var name Type
-			if len(fs) >= 4 && fs[1] == "var" {
+			if len(fs) >= 4 && (fs[1] == "var" || fs[1] == "state") {
 				t, err := parseTypeStr(strings.Join(fs[3:], " "))
 				if err != nil {
 					db.errf("%s: %v", where, err)
 					continue
 				}
-				db.Ghosts[fs[2]] = &GhostVar{Name: fs[2], Type: t, Pkg: pkg}
+				db.Ghosts[fs[2]] = &GhostVar{Name: fs[2], Type: t, Pkg: pkg, State: fs[1] == "state"}
 			} else if len(fs) >= 3 && fs[1] == "at" && cur != nil {
 				// ghost at <anchor>: <ghost lvalue> = <expr>   (ghost update at a program point)
 				r := strings.TrimPrefix(rest, "at ")
